@@ -244,11 +244,12 @@ def part_model(rep, rng, tier):
     cases = [(k, ss, False) for k, ss in cases] + [(k + "+link", ss, True) for k, ss in cases]
     jobs = [(([("t.mac", prog_text(ss, lk))],), {"watchdog": 8}) for _, ss, lk in cases]
     outs = impl.pmap("assemble", jobs)
-    nre = 0
-    for k, o in enumerate(outs):      # a watchdog expiry on a loaded machine is not yet a hang
-        if o["outcome"] == "hang" and nre < 6:
-            nre += 1
+    real = 0
+    for k, o in enumerate(outs):      # a watchdog expiry on a loaded machine is not yet a hang: confirm serially
+        if o["outcome"] == "hang" and real < 3:
             outs[k] = impl.assemble(jobs[k][0][0], watchdog=CONFIRM_S)
+            if outs[k]["outcome"] == "hang":
+                real += 1
     terms, keep = [], []
     for (kind, ss, lk), o in zip(cases, outs):
         rep.add_eval()
@@ -329,22 +330,21 @@ def run_pairs(rep, label, groups, watchdog=8):
             if canon(ov) != canon(ob):
                 bad.append((g, desc, files, fs, ob, ov))
     # a watchdog expiry on a loaded machine is not yet a hang: confirm serially with a long limit
-    confirmed, checked, spurious = [], 0, 0
+    confirmed, real, spurious = [], 0, 0
     for item in bad:
         g, desc, files, fs, ob, ov = item
         if "hang" not in (ob["outcome"], ov["outcome"]):
             confirmed.append(item)
             continue
-        if checked >= 2 and spurious == checked:
-            continue            # every expiry looked at so far was load, not a hang
-        if checked >= 2:
+        if real >= 2:             # two expiries were reproduced with the long limit: the rest are taken as they are
             confirmed.append(item)
             continue
-        checked += 1
         ob2 = impl.assemble(g["base"][0], fs=g["base"][1], watchdog=CONFIRM_S)
         ov2 = impl.assemble(files, fs=fs, watchdog=CONFIRM_S)
         if canon(ob2) != canon(ov2):
             confirmed.append((g, desc, files, fs, ob2, ov2))
+            if "hang" in (ob2["outcome"], ov2["outcome"]):
+                real += 1
         else:
             spurious += 1
     if spurious:
